@@ -43,25 +43,40 @@ def cone_files():
     return sorted(out)
 
 
+def prop_modules(prop):
+    """CR/Props/<id>.lean plus companions CR/Props/<id><Suffix>.lean (e.g. C15Real)"""
+    d = os.path.join(LEAN_DIR, "CR", "Props")
+    out = []
+    for f in sorted(os.listdir(d)) if os.path.isdir(d) else []:
+        if f.endswith(".lean") and re.match(re.escape(prop) + r"([A-Z][A-Za-z]*)?\.lean$", f):
+            out.append(f[:-5])
+    return out
+
+
 def theorem_names(prop):
-    p = os.path.join(LEAN_DIR, "CR", "Props", f"{prop}.lean")
-    if not os.path.exists(p):
-        return []
-    src = strip_comments(open(p).read())
-    ns = re.findall(r"^namespace\s+(\S+)", src, flags=re.M)
-    prefix = (ns[0] + ".") if ns else ""
-    names = re.findall(r"^\s*(?:protected\s+|private\s+)?theorem\s+([^\s:({\[]+)", src, flags=re.M)
-    return [prefix + n for n in names], len(re.findall(r"^\s*example\b", src, flags=re.M))
+    names, n_examples = [], 0
+    for mod in prop_modules(prop):
+        src = strip_comments(open(os.path.join(LEAN_DIR, "CR", "Props", mod + ".lean")).read())
+        ns = re.findall(r"^namespace\s+(\S+)", src, flags=re.M)
+        prefix = (ns[0] + ".") if ns else ""
+        names += [prefix + n for n in re.findall(r"^\s*(?:protected\s+)?theorem\s+([^\s:({\[]+)", src, flags=re.M)]
+        n_examples += len(re.findall(r"^\s*example\b", src, flags=re.M))
+    return names, n_examples
 
 
 def run(prop, tier):
     t0 = time.time()
     res = {"obligations": 0, "discharged": 0, "theorems": [], "axioms": {}, "failed": [],
            "trusted_base": TRUSTED_BASE,
-           "checker_cmd": f"cd lean && lake build CR crmodel && lake env lean <generated #print axioms file for CR.Props.{prop}>"
+           "checker_cmd": f"cd lean && lake build crmodel CR.Props.{prop} && lake env lean .lake/audit_{prop}.lean  (generated: #print axioms of every theorem of CR/Props/{prop}*.lean)"
                           + (" && lake env leanchecker CR.Props." + prop if tier == "thorough" else "")}
     env = dict(os.environ)
-    p = subprocess.run(["lake", "build", "CR", "crmodel"], cwd=LEAN_DIR, capture_output=True, text=True, env=env)
+    mods = prop_modules(prop)
+    if not mods:
+        res["fatal"] = f"no property theorem file CR/Props/{prop}.lean"
+        return res
+    p = subprocess.run(["lake", "build", "crmodel"] + ["CR.Props." + m for m in mods], cwd=LEAN_DIR,
+                       capture_output=True, text=True, env=env)
     if p.returncode != 0:
         res["fatal"] = "lake build failed:\n" + (p.stdout + p.stderr)[-3000:]
         return res
@@ -74,15 +89,15 @@ def run(prop, tier):
     if bad:
         res["fatal"] = "forbidden construct in Lean sources: " + "; ".join(bad)
         return res
-    tn = theorem_names(prop)
-    if not tn:
-        res["fatal"] = f"no property theorem file CR/Props/{prop}.lean"
+    names, n_examples = theorem_names(prop)
+    if not names:
+        res["fatal"] = f"no theorem in CR/Props/{prop}*.lean"
         return res
-    names, n_examples = tn
     res["obligations"] = len(names) + n_examples
     audit = os.path.join(LEAN_DIR, ".lake", f"audit_{prop}.lean")
     with open(audit, "w") as f:
-        f.write(f"import CR.Props.{prop}\n")
+        for m in mods:
+            f.write(f"import CR.Props.{m}\n")
         for n in names:
             f.write(f"#print axioms {n}\n")
     p = subprocess.run(["lake", "env", "lean", audit], cwd=LEAN_DIR, capture_output=True, text=True, env=env)
@@ -109,7 +124,7 @@ def run(prop, tier):
         res["fatal"] = "axiom audit: " + "; ".join(res["failed"])
         return res
     if tier == "thorough":
-        p = subprocess.run(["lake", "env", "leanchecker", f"CR.Props.{prop}"], cwd=LEAN_DIR,
+        p = subprocess.run(["lake", "env", "leanchecker"] + ["CR.Props." + m for m in mods], cwd=LEAN_DIR,
                            capture_output=True, text=True, env=env)
         res["leanchecker"] = "ok" if p.returncode == 0 else (p.stdout + p.stderr)[-1500:]
         if p.returncode != 0:
